@@ -6,7 +6,7 @@
    Each clause is a check [ev e past] of one event against everything that happened before it;
    a history satisfies a clause when every event does ([all_ok]). *)
 From Coq Require Import String ZArith.
-From OCI Require Export Model.Auth.
+From OCI Require Export Model.Auth Model.AuthRedirect.
 
 Local Open Scope Z_scope.
 
@@ -458,4 +458,38 @@ Definition parsed_lower (o : option (bytes * list (bytes * bytes))) : bool :=
   match o with
   | Some (sch, ps) => no_upper sch && forallb (fun kv => no_upper (fst kv)) ps
   | None => true
+  end.
+
+(* ---------- C11, token servers that redirect ---------- *)
+
+(* What reaches the network when a token server answers a token request with a redirect and
+   http.Client follows it: a chain of requests, the first of which is the token request itself
+   (clause P2 speaks about that one: it goes to a realm the registry named).  The chain is given
+   as it was observed ([hop]: message, host name of its URL, answer). *)
+
+(* host name [h] is [site] itself or ends in a dot followed by [site]: the site's own name or a
+   sub-domain of it *)
+Definition in_site (h site : bytes) : bool := beqb h site || has_suffix (46%N :: site) h.
+
+(* P6a  a request further down the chain carries no Authorization header, or the token request's
+   own - the registry's user name and password - and then it goes to the host the challenge
+   named or a sub-domain of it: the password never reaches a host that no challenge named *)
+Definition p6a_hop (h0 h : hop) : bool :=
+  let a := auth_of (hp_msg h) in
+  authz_eqb a ANone || (authz_eqb a (auth_of (hp_msg h0)) && in_site (hp_host h) (hp_host h0)).
+
+(* P6b  neither does the refresh token: a request further down the chain that has a form with a
+   refresh token in it goes to the very host (URL.Host, port included) that the token request
+   itself went to - the realm the challenge named *)
+Definition p6b_hop (h0 h : hop) : bool :=
+  match hp_msg h with
+  | MPost _ f _ => is_nil (pget k_refresh_token f) || beqb (hp_hostport h) (hp_hostport h0)
+  | _ => true
+  end.
+
+(* P6  both, for every request after the first; and the chain is bounded: ten requests at most *)
+Definition evP6 (chain : list hop) : bool :=
+  match chain with
+  | [] => true
+  | h0 :: rest => forallb (fun h => p6a_hop h0 h && p6b_hop h0 h) rest && (List.length chain <=? 10)%nat
   end.
